@@ -57,7 +57,7 @@ theorem supGL_of_prim (td : Bool) : ∀ (ts : List Ty), ts.all Ty.isPrimLeaf = t
 
 theorem supB_supG (td : Bool) : ∀ (t : Ty), t.supB = true → t.supG td = true
   | .any, h => by simp [Ty.supB] at h
-  | .int, _ | .float, _ | .str, _ | .bytes, _ | .bool, _ | .enum _, _ | .lit _, _ | .cls _, _ => by simp [Ty.supG]
+  | .int, _ | .float, _ | .str, _ | .bytes, _ | .bool, _ | .enum _, _ | .lit _, _ | .cls _, _ | .union _ _, _ => by simp [Ty.supG]
   | .coll k t, h => by
       simp only [Ty.supB, Bool.and_eq_true] at h
       simp only [Ty.supG, Bool.and_eq_true]
@@ -172,6 +172,7 @@ theorem un_eq_unAny (hg : cu.gen = false) :
       cases x <;> simp [conf] at hc
       rw [un, unAny, hc.1]
   | .td _, _, hs, _ => by simp [Ty.supB] at hs
+  | .union _ _, x, _, _ => by simp only [un]
 
 /-- a non-`None` value is never unstructured to `None` (so `Optional` round-trips) -/
 theorem unAny_ne_none (hwe : w.WFE) :
@@ -214,6 +215,10 @@ theorem unAny_ne_none (hwe : w.WFE) :
       cases x <;> simp [conf] at hc
       simp only [unAny]; split <;> simp
   | .td _, _, hs, _, _ => by simp [Ty.supB] at hs
+  | .union _ _, x, _, hc, hx => by
+      cases x <;> simp [conf] at hc
+      · exact absurd rfl hx
+      · simp only [unAny]; split <;> simp
 
 /-- on hashable-primitive types a `BaseConverter` emits what a `Converter` emits -/
 theorem unAny_eq_un_hp (cg : Cfg) (hg : cg.gen = true) :
@@ -246,7 +251,7 @@ theorem unAny_eq_un_hp (cg : Cfg) (hg : cg.gen = true) :
       simp only [un, hg, Bool.true_or, if_true]
       exact unAny_eq_un_hp cg hg t a (by simpa [Ty.hashPrim] using hp) hs' hc'
   | .any, _, hp, _, _ | .coll _ _, _, hp, _, _ | .tupleHet _, _, hp, _, _ | .map _ _ _, _, hp, _, _
-  | .cls _, _, hp, _, _ | .td _, _, hp, _, _ => by simp [Ty.hashPrim] at hp
+  | .cls _, _, hp, _, _ | .td _, _, hp, _, _ | .union _ _, _, hp, _, _ => by simp [Ty.hashPrim] at hp
 
 /-- run-time-class unstructuring is injective up to Python `==` on the values of a hashable-primitive type -/
 theorem unAny_inj (hwe : w.WFE) (t : Ty) (hp : t.hashPrim = true) (hs : t.supB = true) (a b : Obj)
@@ -327,8 +332,10 @@ theorem unAnyL_nodup (xs : List Obj)
 /-! ### the heart: structuring by declared type inverts unstructuring by run-time class -/
 
 theorem roundtrip_any_aux (hg : cu.gen = false) (hstrat : cs.tupleStrat = cu.tupleStrat) (hforbid : cs.forbid = false)
-    (hw : w.WF) (hwe : w.WFE) (S : Nat → Prop) (hws : w.supBOn S) :
+    (hw : w.WF) (hwe : w.WFE) (S : Nat → Prop) (hws : w.supBOn S)
+    (hwu : ∀ c, S c → ∀ f ∈ w.fields c, ∀ t, f.ty = some t → t.unionsOK w cs.tupleStrat = true) :
     ∀ (n m : Nat) (t : Ty) (x : Obj), sizeOf x ≤ n → sizeOf t ≤ m → t.supB = true → (∀ c ∈ t.refs, S c) →
+      t.unionsOK w cs.tupleStrat = true →
       conf w t x = true → x.valid = true → stF w cs t (unAny w cu x) = some x := by
   intro n
   induction n with
@@ -340,17 +347,18 @@ theorem roundtrip_any_aux (hg : cu.gen = false) (hstrat : cs.tupleStrat = cu.tup
     | zero => intro t x _ ht; have : 0 < sizeOf t := by cases t <;> simp <;> omega
               omega
     | succ m ihm =>
-      intro t x hx ht hs hr hc hv
+      intro t x hx ht hs hr hu hc hv
       have IHo : ∀ (t' : Ty) (x' : Obj), sizeOf x' < sizeOf x → t'.supB = true → (∀ c ∈ t'.refs, S c) →
+          t'.unionsOK w cs.tupleStrat = true →
           conf w t' x' = true → x'.valid = true → stF w cs t' (unAny w cu x') = some x' :=
-        fun t' x' hlt hs' hr' hc' hv' => ihn (sizeOf t') t' x' (by omega) (Nat.le_refl _) hs' hr' hc' hv'
+        fun t' x' hlt hs' hr' hu' hc' hv' => ihn (sizeOf t') t' x' (by omega) (Nat.le_refl _) hs' hr' hu' hc' hv'
       cases t with
       | any => simp [Ty.supB] at hs
-      | int => cases x <;> simp_all [conf, unAny, stF, Obj.toInt?]
-      | float => cases x <;> simp_all [conf, unAny, stF, Obj.toFlt?]
-      | str => cases x <;> simp_all [conf, unAny, stF, pyStr]
-      | bytes => cases x <;> simp_all [conf, unAny, stF, Obj.toBytes?]
-      | bool => cases x <;> simp_all [conf, unAny, stF, Obj.truthy]
+      | int => clear IHo ihm ihn hwu hws hu hr; cases x <;> simp_all [conf, unAny, stF, Obj.toInt?]
+      | float => clear IHo ihm ihn hwu hws hu hr; cases x <;> simp_all [conf, unAny, stF, Obj.toFlt?]
+      | str => clear IHo ihm ihn hwu hws hu hr; cases x <;> simp_all [conf, unAny, stF, pyStr]
+      | bytes => clear IHo ihm ihn hwu hws hu hr; cases x <;> simp_all [conf, unAny, stF, Obj.toBytes?]
+      | bool => clear IHo ihm ihn hwu hws hu hr; cases x <;> simp_all [conf, unAny, stF, Obj.truthy]
       | enum e =>
         obtain ⟨mm, rfl, hm⟩ := conf_enum_inv w hc
         simp only [unAny, enumValue, stF]
@@ -373,7 +381,8 @@ theorem roundtrip_any_aux (hg : cu.gen = false) (hstrat : cs.tupleStrat = cu.tup
           subst hck
           have hel := (confL_iff w t' xs).mp hcl
           have hrt : stFL w cs t' (unAnyL w cu xs) = some xs :=
-            rtAnyL w cu cs t' xs (fun y hy => IHo t' y (by have := List.sizeOf_lt_of_mem hy; simp; omega) hs' hr' (hel y hy)
+            rtAnyL w cu cs t' xs (fun y hy => IHo t' y (by have := List.sizeOf_lt_of_mem hy; simp; omega) hs' hr'
+              (by simpa [Ty.unionsOK] using hu) (hel y hy)
               (validL_mem (by simpa [Obj.valid] using hv) hy))
           rw [unAny]
           simp only [hg, Bool.false_eq_true, if_false]
@@ -407,7 +416,8 @@ theorem roundtrip_any_aux (hg : cu.gen = false) (hstrat : cs.tupleStrat = cu.tup
           rw [rtAnyT w cu cs ts xs hc (fun t' ht' y hy hcy =>
             IHo t' y (by have := List.sizeOf_lt_of_mem hy; simp; omega)
               (primLeaf_supB (List.all_eq_true.mp hps t' ht'))
-              (by rw [primLeaf_refs (List.all_eq_true.mp hps t' ht')]; intro c hc'; cases hc') hcy
+              (by rw [primLeaf_refs (List.all_eq_true.mp hps t' ht')]; intro c hc'; cases hc')
+              (by have := List.all_eq_true.mp hps t' ht'; cases t' <;> simp_all [Ty.isPrimLeaf, Ty.unionsOK]) hcy
               (validL_mem (by simpa [Obj.valid] using hv) hy))]
           rfl
         | _ => simp [conf] at hc
@@ -416,6 +426,7 @@ theorem roundtrip_any_aux (hg : cu.gen = false) (hstrat : cs.tupleStrat = cu.tup
         obtain ⟨⟨hp, hsk⟩, hsv⟩ := hs
         have hrk : ∀ c ∈ kt.refs, S c := fun c hc' => hr c (by simp [Ty.refs, hc'])
         have hrv : ∀ c ∈ vt.refs, S c := fun c hc' => hr c (by simp [Ty.refs, hc'])
+        simp only [Ty.unionsOK, Bool.and_eq_true] at hu
         cases x with
         | dict kvs =>
           simp only [conf, Bool.and_eq_true] at hc
@@ -432,8 +443,8 @@ theorem roundtrip_any_aux (hg : cu.gen = false) (hstrat : cs.tupleStrat = cu.tup
             obtain ⟨a, b⟩ := p
             simp only [Prod.mk.sizeOf_spec] at h1
             have hvv := validKV_mem (p := (a, b)) (by simp only [Obj.valid, Bool.and_eq_true] at hv; exact hv.2) hp'
-            exact ⟨IHo kt a (by simp; omega) hsk hrk (hkv.1 a (by simp only [keysOf, List.mem_map]; exact ⟨(a, b), hp', rfl⟩)) hvv.1,
-                   IHo vt b (by simp; omega) hsv hrv (hkv.2 b (by simp only [List.mem_map]; exact ⟨(a, b), hp', rfl⟩)) hvv.2⟩)]
+            exact ⟨IHo kt a (by simp; omega) hsk hrk hu.1 (hkv.1 a (by simp only [keysOf, List.mem_map]; exact ⟨(a, b), hp', rfl⟩)) hvv.1,
+                   IHo vt b (by simp; omega) hsv hrv hu.2 (hkv.2 b (by simp only [List.mem_map]; exact ⟨(a, b), hp', rfl⟩)) hvv.2⟩)]
           simp [hh, mkDict_of_nodup _ hnd]
         | _ => simp [conf] at hc
       | opt t' =>
@@ -446,7 +457,7 @@ theorem roundtrip_any_aux (hg : cu.gen = false) (hstrat : cs.tupleStrat = cu.tup
           have : stF w cs (.opt t') (unAny w cu x) = stF w cs t' (unAny w cu x) := by
             cases hu : unAny w cu x <;> simp_all [stF]
           rw [this]
-          exact ihm t' x hx hsz hs' (by simpa [Ty.refs] using hr) hc hv
+          exact ihm t' x hx hsz hs' (by simpa [Ty.refs] using hr) (by simpa [Ty.unionsOK] using hu) hc hv
       | wrap k t' =>
         have hsz : sizeOf t' ≤ m := by simp at ht; omega
         have hs' : t'.supB = true := by
@@ -455,7 +466,10 @@ theorem roundtrip_any_aux (hg : cu.gen = false) (hstrat : cs.tupleStrat = cu.tup
           · exact h
           · exact primLeaf_supB h
         simp only [stF]
-        exact ihm t' x hx hsz hs' (by simpa [Ty.refs] using hr) (by simpa [conf] using hc) hv
+        exact ihm t' x hx hsz hs' (by simpa [Ty.refs] using hr)
+          (by
+            simp only [Ty.supB, Bool.or_eq_true, Bool.and_eq_true] at hs
+            simpa [Ty.unionsOK] using hu) (by simpa [conf] using hc) hv
       | cls c =>
         cases x with
         | inst c' fs =>
@@ -471,7 +485,8 @@ theorem roundtrip_any_aux (hg : cu.gen = false) (hstrat : cs.tupleStrat = cu.tup
             unfold fconf at hfc
             simp only [hty] at hfc
             rw [un_eq_unAny w cu hg t' p.2 hst' hfc]
-            exact IHo t' p.2 (by have := sizeOf_snd_lt_of_mem hp; simp; omega) hst' hrt' hfc
+            exact IHo t' p.2 (by have := sizeOf_snd_lt_of_mem hp; simp; omega) hst' hrt'
+              (hwu c (hr c (by simp [Ty.refs])) f hf t' hty) hfc
               (validF_mem (by simpa [Obj.valid] using hv) hp)
           by_cases htup : cu.tupleStrat = true
           · rw [unAny]; simp only [htup, if_true]
@@ -488,46 +503,76 @@ theorem roundtrip_any_aux (hg : cu.gen = false) (hstrat : cs.tupleStrat = cu.tup
             simp [hforbid]
         | _ => simp [conf] at hc
       | td c => simp [Ty.supB] at hs
+      | union ucs hn =>
+        simp only [Ty.unionsOK, Bool.and_eq_true, Bool.not_eq_true'] at hu
+        obtain ⟨htupS, hok⟩ := hu
+        have htupU : cu.tupleStrat = false := by rw [← hstrat]; exact htupS
+        cases x with
+        | none =>
+          simp only [conf] at hc; subst hc
+          simp only [unAny]
+          rw [stF_union, unionPick_none_ok w hok]
+        | inst c fs =>
+          simp only [conf, Bool.and_eq_true, List.contains_iff_mem] at hc
+          obtain ⟨hcm, hcf⟩ := hc
+          have hcm' : c ∈ ucs := by simpa using hcm
+          have hcls := ihm (.cls c) (.inst c fs) hx (by have := sizeOf_cls_lt_union hcm' hn; omega)
+            (by simp [Ty.supB]) (by intro c' hc'; simp only [Ty.refs, List.mem_singleton] at hc'; rw [hc']
+                                    exact hr c (by simpa [Ty.refs] using hcm'))
+            (by simp [Ty.unionsOK]) (by simp [conf, hcf]) hv
+          have hd : unAny w cu (.inst c fs) = .dict (unFields w cu (w.fields c) fs) := by
+            simp [unAny, htupU]
+          rw [stF_union, hd, unionPick_member w cu hw hok hn hcm' fs hcf]
+          simp only [hcm', if_true]
+          rw [← hd]; exact hcls
+        | _ => simp [conf] at hc
 
 /-- structuring by declared type inverts unstructuring by run-time class on conforming values;
 the support hypothesis is demanded only of a closed set `S` of classes containing those the type mentions -/
 theorem roundtrip_any_on (hg : cu.gen = false) (hstrat : cs.tupleStrat = cu.tupleStrat) (hforbid : cs.forbid = false)
     (hw : w.WF) (hwe : w.WFE) (S : Nat → Prop) (hws : w.supBOn S)
-    (t : Ty) (x : Obj) (hs : t.supB = true) (hr : ∀ c ∈ t.refs, S c) (hc : conf w t x = true) (hv : x.valid = true) :
+    (hwu : ∀ c, S c → ∀ f ∈ w.fields c, ∀ t, f.ty = some t → t.unionsOK w cs.tupleStrat = true)
+    (t : Ty) (x : Obj) (hs : t.supB = true) (hr : ∀ c ∈ t.refs, S c) (hu : t.unionsOK w cs.tupleStrat = true)
+    (hc : conf w t x = true) (hv : x.valid = true) :
     stF w cs t (unAny w cu x) = some x :=
-  roundtrip_any_aux w cu cs hg hstrat hforbid hw hwe S hws (sizeOf x) (sizeOf t) t x (Nat.le_refl _) (Nat.le_refl _)
-    hs hr hc hv
+  roundtrip_any_aux w cu cs hg hstrat hforbid hw hwe S hws hwu (sizeOf x) (sizeOf t) t x (Nat.le_refl _) (Nat.le_refl _)
+    hs hr hu hc hv
 
 theorem roundtrip_any (hg : cu.gen = false) (hstrat : cs.tupleStrat = cu.tupleStrat) (hforbid : cs.forbid = false)
-    (hw : w.WF) (hwe : w.WFE) (hws : w.supB)
-    (t : Ty) (x : Obj) (hs : t.supB = true) (hc : conf w t x = true) (hv : x.valid = true) :
+    (hw : w.WF) (hwe : w.WFE) (hws : w.supB) (hwu : w.unionsOK cs.tupleStrat)
+    (t : Ty) (x : Obj) (hs : t.supB = true) (hu : t.unionsOK w cs.tupleStrat = true)
+    (hc : conf w t x = true) (hv : x.valid = true) :
     stF w cs t (unAny w cu x) = some x :=
-  roundtrip_any_on w cu cs hg hstrat hforbid hw hwe _ hws.on t x hs (fun _ _ => trivial) hc hv
+  roundtrip_any_on w cu cs hg hstrat hforbid hw hwe _ hws.on (fun c _ => hwu c) t x hs (fun _ _ => trivial) hu hc hv
 
 /-- **C01 (core, BaseConverter-unstructured data), support demanded of the reachable classes only.** -/
 theorem roundtrip_interp_on (hg : cu.gen = false) (hstrat : cs.tupleStrat = cu.tupleStrat) (hforbid : cs.forbid = false)
     (hw : w.WF) (hwe : w.WFE) (S : Nat → Prop) (hws : w.supBOn S)
-    (t : Ty) (x : Obj) (hs : t.supB = true) (hr : ∀ c ∈ t.refs, S c) (hc : conf w t x = true) (hv : x.valid = true) :
+    (hwu : ∀ c, S c → ∀ f ∈ w.fields c, ∀ t, f.ty = some t → t.unionsOK w cs.tupleStrat = true)
+    (t : Ty) (x : Obj) (hs : t.supB = true) (hr : ∀ c ∈ t.refs, S c) (hu : t.unionsOK w cs.tupleStrat = true)
+    (hc : conf w t x = true) (hv : x.valid = true) :
     stF w cs t (un w cu t x) = some x := by
   rw [un_eq_unAny w cu hg t x hs hc]
-  exact roundtrip_any_on w cu cs hg hstrat hforbid hw hwe S hws t x hs hr hc hv
+  exact roundtrip_any_on w cu cs hg hstrat hforbid hw hwe S hws hwu t x hs hr hu hc hv
 
 /-- **C01 (core, BaseConverter-unstructured data).**  The structuring converter may be of either class. -/
 theorem roundtrip_interp (hg : cu.gen = false) (hstrat : cs.tupleStrat = cu.tupleStrat) (hforbid : cs.forbid = false)
-    (hw : w.WF) (hwe : w.WFE) (hws : w.supB)
-    (t : Ty) (x : Obj) (hs : t.supB = true) (hc : conf w t x = true) (hv : x.valid = true) :
+    (hw : w.WF) (hwe : w.WFE) (hws : w.supB) (hwu : w.unionsOK cs.tupleStrat)
+    (t : Ty) (x : Obj) (hs : t.supB = true) (hu : t.unionsOK w cs.tupleStrat = true)
+    (hc : conf w t x = true) (hv : x.valid = true) :
     stF w cs t (un w cu t x) = some x :=
-  roundtrip_interp_on w cu cs hg hstrat hforbid hw hwe _ hws.on t x hs (fun _ _ => trivial) hc hv
+  roundtrip_interp_on w cu cs hg hstrat hforbid hw hwe _ hws.on (fun c _ => hwu c) t x hs (fun _ _ => trivial) hu hc hv
 
 /-- both halves: any pair of converter classes, inside the common support -/
 theorem roundtrip_cross (hstrat : cs.tupleStrat = cu.tupleStrat) (hforbid : cs.forbid = false)
-    (hw : w.WF) (hwe : w.WFE) (hws : w.supB)
-    (t : Ty) (x : Obj) (hs : t.supB = true) (hc : conf w t x = true) (hv : x.valid = true) :
+    (hw : w.WF) (hwe : w.WFE) (hws : w.supB) (hwu : w.unionsOK cs.tupleStrat)
+    (t : Ty) (x : Obj) (hs : t.supB = true) (hu : t.unionsOK w cs.tupleStrat = true)
+    (hc : conf w t x = true) (hv : x.valid = true) :
     stF w cs t (un w cu t x) = some x := by
   cases hg : cu.gen with
-  | false => exact roundtrip_interp w cu cs hg hstrat hforbid hw hwe hws t x hs hc hv
+  | false => exact roundtrip_interp w cu cs hg hstrat hforbid hw hwe hws hwu t x hs hu hc hv
   | true =>
-    exact roundtrip w cu cs hg hstrat hforbid hw hwe (World.supB_supG hws cs.gen) t x (supB_supG cs.gen t hs) hc hv
+    exact roundtrip w cu cs hg hstrat hforbid hw hwe (World.supB_supG hws cs.gen) hwu t x (supB_supG cs.gen t hs) hu hc hv
 
 /-! ### the support of a pair (unstructuring converter, structuring converter) -/
 
@@ -540,17 +585,18 @@ def World.supPair (w : World) (cu cs : Cfg) : Prop := if cu.gen = true then w.su
 
 /-- **C01 (core), all four pairs of converter classes.** -/
 theorem roundtrip_full (hstrat : cs.tupleStrat = cu.tupleStrat) (hforbid : cs.forbid = false)
-    (hw : w.WF) (hwe : w.WFE) (hws : w.supPair cu cs)
-    (t : Ty) (x : Obj) (hs : t.supPair cu cs = true) (hc : conf w t x = true) (hv : x.valid = true) :
+    (hw : w.WF) (hwe : w.WFE) (hws : w.supPair cu cs) (hwu : w.unionsOK cs.tupleStrat)
+    (t : Ty) (x : Obj) (hs : t.supPair cu cs = true) (hu : t.unionsOK w cs.tupleStrat = true)
+    (hc : conf w t x = true) (hv : x.valid = true) :
     stF w cs t (un w cu t x) = some x := by
   unfold World.supPair at hws
   unfold Ty.supPair at hs
   cases hg : cu.gen with
   | false =>
     simp only [hg, Bool.false_eq_true, if_false] at hws hs
-    exact roundtrip_interp w cu cs hg hstrat hforbid hw hwe hws t x hs hc hv
+    exact roundtrip_interp w cu cs hg hstrat hforbid hw hwe hws hwu t x hs hu hc hv
   | true =>
     simp only [hg, if_true] at hws hs
-    exact roundtrip w cu cs hg hstrat hforbid hw hwe hws t x hs hc hv
+    exact roundtrip w cu cs hg hstrat hforbid hw hwe hws hwu t x hs hu hc hv
 
 end CattrsModel
